@@ -549,10 +549,15 @@ def d_fields(parts):
     for p in parts:
         if p[0] == 'comp':
             add(SYM_FIELD[p[1]], d_comp(p), p[1], 'bAND')
-        elif p[0] == 'nested':
-            add(SYM_FIELD_C[p[1]], d_nested(p), p[1], 'AND')
-        elif p[0] == 'ncombo':
+    # separate nested annotations of one component type are conjoined; the order of that implicit conjunction is not part
+    # of what is written: the parser joins the braced combinations first, then the single nested statements (each group in
+    # source order), and so does this reading
+    for p in parts:
+        if p[0] == 'ncombo':
             add(SYM_FIELD_C[p[1]], d_ntree(p[2], p[1]), p[1], 'AND')
+    for p in parts:
+        if p[0] == 'nested':
+            add(SYM_FIELD_C[p[1]], d_nested(p), p[1], 'AND')
     return [(f, by[f]) for f in ORDER if f in by]
 
 
@@ -593,13 +598,35 @@ def holds_statements(n):
     return holds_statements(n[7]) and holds_statements(n[8])
 
 
+COMPLEX_FIELD_NAMES = {"ApC", "BdirC", "BdirpC", "BindC", "BindpC", "EpC", "PC", "PpC", "CacC", "CexC", "O"}
+
+
+def conj_norm(n):
+    """Nested statements of one component type written as separate annotations are conjoined; the parser joins them in the
+    order its extraction passes find them (combinations first; statements with annotations or inner parentheses after the
+    plain ones), which is not the source order and not part of what is written. The conjunction at the top of a nested
+    component is therefore compared as a multiset of its operands."""
+    def flat(x):
+        if x[0] == 'C' and x[6] == 'AND' and not x[4] and not x[5] and not x[2] and not x[3]:
+            return flat(x[7]) + flat(x[8])
+        return [x]
+    ops = flat(n)
+    if len(ops) == 1:
+        return n
+    ops = sorted((('L' if o[0] == 'L' else 'C', b"") + tuple(o[2:]) for o in ops), key=repr)
+    acc = ops[0]
+    for o in ops[1:]:
+        acc = ('C', b"", None, None, [], [], 'AND', acc, o)
+    return ('C', n[1]) + acc[2:]
+
+
 def strip_full(n, root=True, sym=None):
     """Projection for C02/C03: operator, entries, shared text, suffix, annotation (component type on the root of a component
     only), descending into nested statements and node arrays. The parser stores the component symbol of a nested-statement
     combination as left shared text of the combination node (brace-mode extraction of the prefix); that artefact is dropped."""
     def ent(e):
         if isinstance(e, tuple) and e[0] == 'T':
-            return ('T', [(f, strip_full(x)) for f, x in e[1]])
+            return ('T', [(f, conj_norm(strip_full(x)) if f in COMPLEX_FIELD_NAMES else strip_full(x)) for f, x in e[1]])
         if isinstance(e, tuple) and e[0] == 'NS':
             return ('NS', [strip_full(x) for x in e[1]])
         return e
